@@ -329,7 +329,7 @@ fn one_position<C: Autocomplete + Help>(sc: &Scenario, ff: &FaultFree, k: usize,
 }
 
 fn has_fmt_write(sc: &Scenario) -> bool {
-    let in_calls = |c: &Vec<WCall>| c.iter().any(|w| matches!(w.kind, WKind::Fmt | WKind::Fmt2));
+    let in_calls = |c: &Vec<WCall>| c.iter().any(|w| w.kind.is_core_fmt());
     sc.script.iter().any(|a| in_calls(&a.writes))
         || sc.target.as_ref().map(|t| t.iter().any(|op| matches!(op, Op::Write(c) if in_calls(c)))).unwrap_or(false)
 }
